@@ -361,6 +361,7 @@ MANIFEST = dict(
          "the tree, Props/C16Erase.lean); `==` is preserved by erasure (erase_pyEq_of_pyEq) and equal for trees wrapped at the same "
          "positions (erase_pyEq; erase_pyEq_self needs distinct dict keys — a Python dict guarantees them, counter-example "
          "theorem for the model's duplicate-key tables); tie and search: every generated tree is executed "
-         "on the real code both plain and with random sub-schemas wrapped in a real forwarding CustomSchema and compared.",
+         "on the real code both plain and with random sub-schemas wrapped in a real forwarding CustomSchema and compared."
+         " Source pins: the normalised text of every anchor file is compared with the text the model was last validated against; a changed file is a broken obligation (no-failing-input-found unless the search finds an input).",
     note="Trusted: Lean kernel + standard axioms, hand model, codec. The forwarding class is the harness's (harness/custom.py); "
          "a custom type that does not forward its arguments is outside the property.")
